@@ -423,5 +423,39 @@ def r05_8(ctx):
              "is invisible while the file is loaded is no longer selected when it becomes visible", f.loc(loops[0])))
 
 
+def r05_9(ctx):
+    """R05.9 (a) member assignments a file makes are applied even when the choice is invisible at load time (they are deferred
+    to the end of the load and then applied unconditionally: the pick has to win once the choice becomes visible);
+    (b) every default of every definition of a choice reaches Choice.defaults (they are copied up wholesale; whether a
+    default names a member is judged later, when all definitions have registered their members)."""
+    repo = ctx.repo
+    f = repo.func(f"{CORE}:Kconfig._load_config")
+    ctx.analysed(f.qual)
+    loops = [n for n in ast.walk(f.node) if isinstance(n, ast.For) and "choices_with_user_set_value" in ast.unparse(n.iter)]
+    if not loops:
+        raise AnchorError("_load_config: loop over the deferred choice assignments not found")
+    lp = loops[0]
+    inner = [n for n in ast.walk(lp) if isinstance(n, ast.For) and n is not lp and any(isinstance(c, ast.Call) and ast.unparse(c.func).endswith(("set_value_and_source", ".set_value")) for c in ast.walk(n))]
+    construct = "Kconfig._load_config/deferred member assignments are applied for every choice"
+    if not inner:
+        ctx.bad(construct, "the deferred (member, value) pairs are never applied", f.loc(lp))
+    else:
+        ids = {id(inner[0].iter)}
+        fl = Flow(f.node, resolver=Resolver(f.node), events=lambda n: ["applied"] if id(n) in ids else [], body=lp.body).run()
+        skipping = []
+        for kind, node, stt in fl.exits:
+            if kind in ("continue", "fallthrough") and "applied" not in {x[1] for x in stt if x[0] == "ev"}:
+                skipping.append(sorted((x[1], x[2]) for x in stt if x[0] == "g")[:3])
+        (ctx.bad(construct, f"a choice is skipped under {skipping[0]}: a pick loaded while the choice is disabled is forgotten and the default wins once the "
+                 "choice becomes visible", f.loc(lp)) if skipping else ctx.ok(construct, f.loc(inner[0])))
+    fn = repo.func(f"{CORE}:Kconfig._finalize_node")
+    ctx.analysed(fn.qual)
+    construct = "Kconfig._finalize_node/all defaults of a choice definition are copied to the Choice"
+    whole = [n for n in ast.walk(fn.node) if (isinstance(n, ast.AugAssign) and ast.unparse(n.target).endswith(".defaults") and ast.unparse(n.value) == "node.defaults")
+             or (isinstance(n, ast.Call) and ast.unparse(n.func).endswith(".defaults.extend") and n.args and ast.unparse(n.args[0]) == "node.defaults")]
+    (ctx.ok(construct, fn.loc(whole[0])) if whole else
+     ctx.bad(construct, "the defaults are copied one by one under a filter: a default naming a member that a *later* definition of the same choice adds is dropped",
+             fn.loc()))
+
 def rules():
-    return [("R05.8", r05_8, 1), ("R05.7", r05_7, 9), ("R05.1", r05_1, 2), ("R05.2", r05_2, 4), ("R05.3", r05_3, 3), ("R05.4", r05_4, 3), ("R05.5", r05_5, 6), ("R05.6", r05_6, 9)]
+    return [("R05.9", r05_9, 2), ("R05.8", r05_8, 1), ("R05.7", r05_7, 9), ("R05.1", r05_1, 2), ("R05.2", r05_2, 4), ("R05.3", r05_3, 3), ("R05.4", r05_4, 3), ("R05.5", r05_5, 6), ("R05.6", r05_6, 9)]
